@@ -18,20 +18,23 @@
 EXTENDS Integers, Sequences, FiniteSets, TLC, Json, IOUtils, SequencesExt
 
 CONSTANTS HasTrace, MaxReq, EvapSharesMdot,
+          SharedStates,     \* mutant: the state-point container is a constructor default evaluated once, so every cycle object
+                            \* built with the default constructor writes into the same container (seeded change C18f)
           BackendCached     \* mutant: the property back end is rebuilt only when the refrigerant name differs from the one
                             \* recorded on the object -- and the name is recorded before the comparison (seeded change C18b)
 
 Fluids == {"f1", "f2"}
 VARIABLES solved, basis, hist, obs, l,
+          pts,              \* whose solve() last wrote the state-point container this object reads: "none", "self", "other"
           fluid,            \* refrigerant named in the last solve() (what the object reports)
           backend           \* refrigerant whose property back end (state object, critical constants) is loaded
-vars == <<solved, basis, hist, obs, l, fluid, backend>>
+vars == <<solved, basis, hist, obs, l, fluid, backend, pts>>
 
 Trace == IF HasTrace THEN JsonDeserialize(IOEnv.TRACE_FILE) ELSE <<>>
 
 (* ---- Part 1 ---- *)
 DInit == /\ solved = FALSE /\ basis = "none" /\ hist = <<>> /\ obs = [evap |-> "none", cond |-> "none"] /\ l = 1
-         /\ fluid = "none" /\ backend = "none"
+         /\ fluid = "none" /\ backend = "none" /\ pts = "none"
 (* solve(refrigerant = f): _validate_solve_inputs loads the back end for f on EVERY call, then the name is recorded;   *)
 (* the same object may be solved again for another refrigerant or operating point                                     *)
 Solve(f) ==
@@ -40,6 +43,12 @@ Solve(f) ==
          /\ fluid' = f
          /\ backend' = IF BackendCached /\ backend # "none" THEN backend ELSE f
          /\ hist' = Append(hist, "solve:" \o f) /\ obs' = [evap |-> "none", cond |-> "none"] /\ UNCHANGED l
+         /\ pts' = "self"
+(* ANOTHER cycle object, alive at the same time, is solved (a cascade holds several): it owns its container *)
+SolveOther ==
+         /\ ~HasTrace /\ Len(hist) < MaxReq
+         /\ pts' = IF SharedStates /\ pts # "none" THEN "other" ELSE pts
+         /\ hist' = Append(hist, "other") /\ UNCHANGED <<solved, basis, obs, l, fluid, backend>>
 Build(c, e) ==
   /\ ~HasTrace /\ solved /\ Len(hist) < MaxReq
   /\ LET b1 == IF c THEN "perJ" ELSE basis                 \* condenser branch re-bases the shared mass flow first
@@ -49,7 +58,8 @@ Build(c, e) ==
                              ELSE IF EvapSharesMdot THEN (IF b1 = "perJ" THEN "Qevap" ELSE "1000xQevap")
                              ELSE "Qevap"]
   /\ hist' = Append(hist, IF c /\ e THEN "both" ELSE IF c THEN "cond" ELSE "evap")
-  /\ UNCHANGED <<solved, l, fluid, backend>>
+  /\ UNCHANGED <<solved, l, fluid, backend, pts>>
+C18_OwnStatePoints == solved => pts = "self"                 \* an object reports the state points of its own last solve
 C18_BackendIsRequested == solved => backend = fluid          \* state points are those of the refrigerant asked for
 C18_OrderIndependent == obs.evap \in {"none", "Qevap"} /\ obs.cond \in {"none", "Qcond"}
 
@@ -88,15 +98,18 @@ EvFails(e) ==
   (* the same point solved on an object that was solved before for another refrigerant and operating point *)
   \cup (IF e.reuse.h = e.h /\ e.reuse.s = e.s /\ e.reuse.p = e.p /\ e.reuse.Qc = e.Qc /\ e.reuse.Qe = e.Qe /\ e.reuse.W = e.W
         THEN {} ELSE {"C18.independent_of_earlier_solves"})
+  (* the object re-read after OTHER cycle objects were created and solved at other operating points *)
+  \cup (IF e.alive.h = e.h /\ e.alive.s = e.s /\ e.alive.p = e.p /\ e.alive.Qc = e.Qc /\ e.alive.Qe = e.Qe /\ e.alive.W = e.W
+        THEN {} ELSE {"C18.independent_of_other_cycle_objects"})
 
 TInit == /\ solved = TRUE /\ basis = "trace" /\ hist = <<>> /\ obs = [evap |-> "none", cond |-> "none"] /\ l = 1
-         /\ fluid = "trace" /\ backend = "trace"
+         /\ fluid = "trace" /\ backend = "trace" /\ pts = "self"
 TStep == /\ HasTrace /\ l <= Len(Trace)
          /\ LET f == EvFails(Trace[l]) IN f = {} \/ PrintT(<<"VERDICT", ToJson([id |-> Trace[l].id, fails |-> SetToSeq(f)])>>)
-         /\ l' = l + 1 /\ UNCHANGED <<solved, basis, hist, obs, fluid, backend>>
+         /\ l' = l + 1 /\ UNCHANGED <<solved, basis, hist, obs, fluid, backend, pts>>
 
 Init == IF HasTrace THEN TInit ELSE DInit
-Next == (\E f \in Fluids : Solve(f)) \/ (\E c, e \in BOOLEAN : (c \/ e) /\ Build(c, e)) \/ TStep
+Next == (\E f \in Fluids : Solve(f)) \/ SolveOther \/ (\E c, e \in BOOLEAN : (c \/ e) /\ Build(c, e)) \/ TStep
 Spec == Init /\ [][Next]_vars
 TraceAccepted == ~HasTrace \/ TLCGet("stats").diameter - 1 = Len(Trace)
 =============================================================================
